@@ -23,10 +23,11 @@ func ExtractTypeInfo(t types.Type) *TypeInfo {
 		return nil
 	}
 
-	// Remove pointer if present
-	if ptr, ok := t.(*types.Pointer); ok {
+	// Remove pointer if present (type aliases denote the type they are declared as)
+	if ptr, ok := types.Unalias(t).(*types.Pointer); ok {
 		t = ptr.Elem()
 	}
+	t = types.Unalias(t)
 
 	// Get named type
 	named, ok := t.(*types.Named)
@@ -53,10 +54,11 @@ func ExtractTypeName(t types.Type) string {
 		return ""
 	}
 
-	// Remove pointer if present
-	if ptr, ok := t.(*types.Pointer); ok {
+	// Remove pointer if present (type aliases denote the type they are declared as)
+	if ptr, ok := types.Unalias(t).(*types.Pointer); ok {
 		t = ptr.Elem()
 	}
+	t = types.Unalias(t)
 
 	// Get named type
 	named, ok := t.(*types.Named)
